@@ -227,6 +227,10 @@ class Gen:
     def polygon(self, nmin=3, nmax=6, fr=None):
         """convex lattice polygon (vertex cycle, CCW about cross(u,v)) on a random lattice plane"""
         R = self.R
+        if fr is None and R.random() < 0.05:
+            tw = self.twin_polygon(nmin, nmax)
+            if tw is not None:
+                return tw
         for _ in range(1000):
             if fr is None:
                 o = self.ipt(-3, 3)
@@ -252,6 +256,31 @@ class Gen:
                 continue
             return pts
         raise RuntimeError('polygon generation failed')
+
+    def twin_polygon(self, nmin=3, nmax=6):
+        """a polygon in a coordinate plane two of whose vertices differ only by -1 <-> -2 in one coordinate, the other
+        coordinates being 0 or 1: CPython hashes them alike (hash(-1) == hash(-2)); anything keyed by hashes merges them"""
+        R = self.R
+        ax, b = R.sample(range(3), 2)
+        c = 3 - ax - b
+        u, cv = R.randint(0, 1), R.randint(0, 1)
+        tpls = [[(-2, u), (-1, u), (-2 + R.choice([0, 1, 2]), u + R.choice([1, 2, 3]))],
+                [(-2, u), (-1, u), (0, u + 2), (-3, u + 2)],
+                [(-2, u), (-1, u), (0, u + 1), (-1, u + 3), (-3, u + 1)],
+                [(-2, u), (-1, u), (1, u + 1), (1, u + 2), (-1, u + 3), (-3, u + 2)]]
+        tpls = [t for t in tpls if nmin <= len(t) <= nmax]
+        if not tpls:
+            return None
+        t = R.choice(tpls)
+        h = E._hull2(t)
+        if len(h) != len(t):
+            return None
+        pts = []
+        for a_, b_ in h:
+            p = [F(0)] * 3
+            p[ax], p[b], p[c] = F(a_), F(b_), F(cv)
+            pts.append(tuple(p))
+        return pts
 
     def hull_body(self, nmin=4, nmax=8, lo=-3, hi=3, den=1):
         R = self.R
